@@ -788,6 +788,19 @@ func (h *harness) account(r *caseResult) {
 		}
 	}
 	run.Count("class:" + cls)
+	roots := "roots:query"
+	if c.Schema.Mutation != "" {
+		roots += "+mutation"
+	}
+	if c.Schema.Subscription != "" {
+		roots += "+subscription"
+	}
+	run.Count(roots)
+	for _, d := range c.Docs {
+		for _, def := range d.Ops() {
+			run.Count("operation:" + def.Kind)
+		}
+	}
 	if !r.allValid && !strings.HasPrefix(c.Label, "invalid:") {
 		run.Count("generator-miss:" + c.Label + ":" + clip(r.invalidWhy, 70))
 		if os.Getenv("C20_DEBUG") != "" {
